@@ -351,8 +351,8 @@ func (t *builtinArgTable) arityDead(fn *ssa.Function, b *ssa.BasicBlock) bool {
 		if !ok {
 			continue
 		}
-		bo, ok := iff.Cond.(*ssa.BinOp)
-		if !ok || bo.Op != token.EQL {
+		bo, eq, ok := core.EqCond(iff.Cond)
+		if !ok {
 			continue
 		}
 		call, ok := bo.X.(*ssa.Call)
@@ -364,7 +364,7 @@ func (t *builtinArgTable) arityDead(fn *ssa.Function, b *ssa.BasicBlock) bool {
 			continue
 		}
 		k, ok := core.ConstIntValue(bo.Y)
-		if !ok || !core.EdgeDominates(blk, 0, b) {
+		if !ok || !core.EdgeDominates(blk, eq, b) {
 			continue
 		}
 		// Validate must have been called and passed
